@@ -6,6 +6,7 @@
 //	wk replay-filter -out res.ndjson sfs_1.ndjson sfv_1.ndjson ...  model -> code, FilterTree
 //	wk replay-ext -out res.ndjson sxv.ndjson ...                    model -> code, Extensions hooks
 //	wk probe-ext [-mode wrap|identity] a.yang b.yang ...            print the hook calls of a compilation
+//	wk probe-alias sws_N.ndjson                                     does a retained `path` slice change later in the walk?
 package main
 
 import (
@@ -41,6 +42,8 @@ func main() {
 		replayExt(os.Args[2:])
 	case "probe-ext":
 		probeExt(os.Args[2:])
+	case "probe-alias":
+		probeAlias(os.Args[2:])
 	default:
 		usage()
 	}
